@@ -220,7 +220,8 @@ def forbidden_scan():
     return hits
 
 
-AXIOM_ALLOW = set()
+# standard-library axioms that may appear under Print Assumptions (named in DESIGN.md, trusted base)
+AXIOM_ALLOW = {"functional_extensionality_dep"}
 
 
 def prop_assumptions(prop):
@@ -229,12 +230,18 @@ def prop_assumptions(prop):
                  cwd=COQ, timeout=1200)
     axioms = []
     closed = out.count("Closed under the global context")
-    if "Axioms:" in out:
-        for blk in re.findall(r"Axioms:\n(.*?)(?=\n\S|\Z)", out, re.S):
-            for l in blk.splitlines():
-                m = re.match(r"\s*([\w.']+)\s*:", l)
-                if m:
-                    axioms.append(m.group(1))
+    in_ax = False
+    for l in out.splitlines():
+        if l.startswith("Axioms:"):
+            in_ax = True
+            continue
+        if in_ax:
+            if l.startswith("Closed under") or (l and not l[0].isspace() and not re.match(r"^[\w.']+\s*(:.*)?$", l)):
+                in_ax = False
+                continue
+            m = re.match(r"^([\w.']+)\s*(:.*)?$", l)      # an axiom name starts in column 0
+            if m:
+                axioms.append(m.group(1).split(".")[-1])
     return rc == 0, closed, sorted(set(axioms)), out
 
 
@@ -415,6 +422,7 @@ def load_known():
 
 TRUSTED_BASE = [
     "Coq 8.16.1 kernel (coqc, full .vo build; vm_compute used, native_compute not used)",
+    "standard-library axiom Coq.Logic.FunctionalExtensionality.functional_extensionality_dep (C20 only: equality of register files as functions); no other axiom",
     "ax2coq translator (Rust->Gallina for the instruction-semantics files); validated by impl<->model correspondence in two build profiles",
     "hand-written models of memory.rs, execute.rs, hooks.rs, syscalls.rs, trace.rs, elf.rs (modelled, not verified); tie = correspondence",
     "iced-x86 decoder behind the decoded-instruction record (decode lines logged by the harness)",
